@@ -2,6 +2,7 @@
 //! Nothing in this crate depends on (or is derived from) the code under test.
 pub mod mem;
 pub mod tape;
+pub mod ula;
 pub mod z80;
 mod z80_tables;
 
